@@ -844,6 +844,33 @@ def openoptions_create(n):
             "args": n["args"], "from_openoptions": True}
 
 
+_INTS = ("u8", "u16", "u32", "u64", "u128", "usize", "i8", "i16", "i32", "i64", "i128", "isize", "bool", "f32", "f64")
+
+
+def replace_to_assign(blk):
+    """`let old = mem::replace(&mut P, V);`  ==  `let old = P; P = V;`  for a Copy scalar place P (read-then-reset)"""
+    stmts = blk.get("stmts", [])
+    out = []
+    changed = False
+    for st in stmts:
+        init = _unblock(st.get("init")) if st.get("k") == "let" else None
+        if st.get("k") == "let" and st.get("pat", {}).get("k") == "pbind" and st.get("els") is None and isinstance(init, dict) \
+                and init.get("k") == "call" and init.get("callee") in ("std::mem::replace", "core::mem::replace") \
+                and len(init.get("args", [])) == 2 and init["args"][0].get("k") == "addr" \
+                and (init["args"][0]["e"].get("ty") in _INTS):
+            place = init["args"][0]["e"]
+            out.append(dict(st, init=copy.deepcopy(place)))
+            out.append({"k": "semi", "sp": st.get("sp"), "ty": "()",
+                        "e": {"k": "assign", "ty": "()", "sp": st.get("sp"), "l": copy.deepcopy(place), "r": init["args"][1],
+                              "from_replace": True}})
+            changed = True
+        else:
+            out.append(st)
+    if changed:
+        blk["stmts"] = out
+    return changed
+
+
 def beta_local_closures(blk):
     """A closure bound to an immutable local and called exactly once is its body at the call (`let next = || reader
     .lock().unwrap().next(); while let Some(r) = next() { .. }`): nothing else can observe the closure value."""
